@@ -11,7 +11,13 @@ pub fn replay(prop: &str, a: &[&str]) -> Result<(), String> {
         "parse" => {
             let p = unhex(a[1])?;
             let reference = wire::parse_ref(&p);
+            dnssector::verif_hook::reset();
             let real = DNSSector::new(p.clone()).map_err(|e| e.to_string())?.parse();
+            let steps = dnssector::verif_hook::steps();
+            // C18: labels and pointers followed + records and options visited, bounded by a fixed multiple of the length (spec/linear.rs)
+            if prop == "c18" && steps > 75 * p.len() as u64 + 271 {
+                return Err(format!("validation spent {} steps on a packet of {} bytes (bound 75*len+271 = {})", steps, p.len(), 75 * p.len() + 271));
+            }
             match (&real, &reference) {
                 (Ok(pp), _) if pp.packet.as_deref() != Some(&p[..]) => return Err("parsed packet does not hold the input bytes".into()),
                 (Ok(_), None) if prop != "c01" && prop != "c18" => return Err("accepted a packet that is not well-formed under C02".into()),
@@ -97,7 +103,46 @@ fn summaries(mut pp: ParsedPacket, p: &[u8], m: &wire::Msg) -> Result<(), String
     Ok(())
 }
 
+/// packet families built to maximise validation work (C18)
+fn gen_c18(r: &mut Rng) -> Vec<u8> {
+    let mut p: Vec<u8> = vec![0, 1, 0x80, 0, 0, 1, 0, 0, 0, 0, 0, 0, 1, b'q', 0, 0, 1, 0, 1];
+    let mut an = 0u16;
+    match r.below(3) {
+        0 => {
+            // a chain of k back-pointers inside the data of an unknown-type record, then m records naming through it at depth d
+            let (k, m) = if r.chance(1, 4) { (1500 + r.below(5000) as usize, 1500 + r.below(3000) as usize) } else { (20 + r.below(400) as usize, 50 + r.below(600) as usize) };
+            p.extend_from_slice(&[0, 0, 99, 0, 1, 0, 0, 0, 1]);
+            let lenpos = p.len(); p.extend_from_slice(&[0, 0]);
+            let start = p.len();
+            p.extend_from_slice(&[1, b'a', 0]);
+            let mut prev = start;
+            let mut elems = vec![];
+            for _ in 0..k { let here = p.len(); if here >= 0x3fff { break; } p.push(0xc0 | (prev >> 8) as u8); p.push(prev as u8); elems.push(here); prev = here; }
+            let l = p.len() - start; p[lenpos] = (l >> 8) as u8; p[lenpos + 1] = l as u8;
+            an += 1;
+            let d = if r.chance(1, 2) { elems.len() - 1 } else { *r.pick(&[14usize, 15, 16, 17]).min(&(elems.len() - 1)) };
+            for _ in 0..m { let t = elems[d]; p.push(0xc0 | (t >> 8) as u8); p.push(t as u8); p.extend_from_slice(&[0, 99, 0, 1, 0, 0, 0, 1, 0, 0]); an += 1; }
+        }
+        1 => {
+            // many records, each with a maximal pointer-free owner name
+            let m = 5 + r.below(40) as usize;
+            let mut name = vec![]; for _ in 0..3 { name.push(63); name.extend(std::iter::repeat(b'x').take(63)); } name.push(61); name.extend(std::iter::repeat(b'y').take(61)); name.push(0);
+            for _ in 0..m { p.extend(&name); p.extend_from_slice(&[0, 1, 0, 1, 0, 0, 0, 1, 0, 4, 1, 2, 3, 4]); an += 1; }
+        }
+        _ => {
+            // one OPT record with a dense list of empty options
+            let n = 100 + r.below(3000) as usize;
+            p.push(0); p.extend_from_slice(&[0, 41, 4, 0xd0, 0, 0, 0, 0]); let l = 4 * n; p.push((l >> 8) as u8); p.push(l as u8);
+            for i in 0..n { p.extend_from_slice(&[0, (i & 0xff) as u8, 0, 0]); }
+            p[11] = 1;
+        }
+    }
+    p[6] = (an >> 8) as u8; p[7] = an as u8;
+    p
+}
+
 pub fn gen(prop: &str, r: &mut Rng) -> Vec<String> {
+    if prop == "c18" && r.chance(2, 3) { return vec![prop.into(), "parse".into(), hex(&gen_c18(r))]; }
     let k = r.below(20);
     if k == 0 && prop != "c04" {
         let p = wire::gen_packet(r);
